@@ -226,3 +226,27 @@ Proof.
        Datatypes.app Datatypes.length List.rev Nat.eqb FUEL_SEM fst snd];
     rewrite ?T1, ?T2, ?T3; reflexivity.
 Qed.
+
+(* push / pop / append_elements: push grows iff len == cap and writes at buf.ptr() + len; pop tests
+   len == 0; append reserves `count`, copies `count` elements to the end (VecModel.push / pop / extend_copy) *)
+Definition vself2 (len cap base : N) : env :=
+  [("self", VRec [("len", VN len); ("buf", VRec [("cap", VN cap); ("ptr", VN base)]); ("as_mut_ptr", VN base)])].
+Lemma src_vec_push_pop_append_ok len cap base x count other : base + len < W ->
+  let en := vself2 len cap base in
+  call_fn src_fns en "vec_push_must_grow" [x] = Ret (VB (len =? cap)) /\
+  call_fn src_fns en "vec_push_slot" [x] = Ret (VN (base + len)) /\
+  call_fn src_fns en "vec_pop_empty" [] = Ret (VB (len =? 0)) /\
+  let en2 := ("count", VN count) :: en in
+  call_fn src_fns en2 "vec_append_reserves" [other] = Ret (VN count) /\
+  call_fn src_fns en2 "vec_append_copy_dst" [other] = Ret (VN (base + len)) /\
+  call_fn src_fns en2 "vec_append_copy_len" [other] = Ret (VN count).
+Proof.
+  intros H. assert (T : (base + len <? W) = true) by (apply N.ltb_lt; exact H).
+  repeat match goal with |- _ /\ _ => split | |- let _ := _ in _ => let x := fresh in intro x; subst x end;
+    unfold call_fn;
+    cbv beta iota zeta delta
+      [call_fn eval lookup bind finish meth0 meth1 arith fn_params fn_body src_fns vself2
+       String.eqb Ascii.eqb Bool.eqb List.app List.combine List.length
+       Datatypes.app Datatypes.length List.rev Nat.eqb FUEL_SEM fst snd];
+    rewrite ?T; reflexivity.
+Qed.
